@@ -129,6 +129,9 @@ func main() {
 
 // runEvent executes one abstract (msg, faults) on the instance and returns the observed event record.
 func runEvent(inst *Instance, pre M, msg M, faults []bool) M {
+	if gets(msg, "type") == "Batch" {
+		return runBatchEvent(inst, msg, faults)
+	}
 	typeURL, wire := inst.Concretise(msg)
 	vas := inst.DirectVerify(pre, msg)
 	r := inst.RunTx(typeURL, wire, faults)
@@ -149,6 +152,54 @@ func runEvent(inst *Instance, pre M, msg M, faults []bool) M {
 		obs["q"] = inst.QueryView(uint64(1 + crc32.ChecksumIEEE(mb)%4))
 	}
 	ev := M{"msg": msg, "faults": used, "obs": obs}
+	if r.Err != "" {
+		ev["note"] = r.Err
+	}
+	if r.Panic != "" {
+		ev["note"] = "PANIC: " + r.Panic
+	}
+	return ev
+}
+
+func usedFaults(calls []LedgerCall, faults []bool, from int) []any {
+	out := make([]any, 0, len(calls))
+	for i := range calls {
+		ok := true
+		if from+i < len(faults) {
+			ok = faults[from+i]
+		}
+		out = append(out, ok)
+	}
+	return out
+}
+
+func runBatchEvent(inst *Instance, msg M, faults []bool) M {
+	var txs [][2]any
+	msgs := arr(msg, "msgs")
+	for _, m := range msgs {
+		u, w := inst.Concretise(m.(map[string]any))
+		txs = append(txs, [2]any{u, w})
+	}
+	r, inner := inst.RunBatch(txs, faults)
+	post, junk := inst.ProjectState()
+	var innerObs []any
+	nc := 0
+	for i, one := range inner {
+		im := msgs[i].(map[string]any)
+		evs := []any{}
+		if one.Res == "ok" {
+			evs = inst.ProjectEvents(one.Events)
+		}
+		innerObs = append(innerObs, M{"msg": im, "faults": usedFaults(one.Calls, faults, nc), "res": one.Res,
+			"resp": inst.ProjectResp(gets(im, "type"), one), "calls": inst.ProjectCalls(one.Calls), "evs": evs})
+		nc += len(one.Calls)
+	}
+	if innerObs == nil {
+		innerObs = []any{}
+	}
+	obs := M{"res": r.Res, "resp": M{"nonce": -1}, "calls": inst.ProjectCalls(r.Calls), "evs": inst.ProjectEvents(r.Events),
+		"post": post, "junk": toAny(junk), "writes": inst.ProjectWrites(r.Writes), "vas": "na", "inner": innerObs}
+	ev := M{"msg": msg, "faults": usedFaults(r.Calls, faults, 0), "obs": obs}
 	if r.Err != "" {
 		ev["note"] = r.Err
 	}
